@@ -40,7 +40,7 @@ enum OpKind : uint16_t {
   kListAppend, kListPrepend, kListInsertBefore, kListInsertAfter, kListUnlink, kListPop, kListPopFirst,
   kBitResize, kBitAppend, kBitSetBit, kBitFillBits, kBitClearBits, kBitFillAll, kBitClearAll, kBitAnd, kBitOr, kBitAndNot,
   kBitCopyFrom, kBitTruncate, kBitClear, kBitSwap, kBitRelease, kBitEquals,
-  kPoolAlloc, kPoolRelease,
+  kPoolAlloc, kPoolRelease, kChunkAlloc, kChunkRelease,
   kRawOneshot, kRawOneshotZeroed, kRawReusable, kRawReusableZeroed, kRawFreeReusable, kRawDup, kRawSformat,
   kArenaReset, kArenaStats,
   kStrAssign, kStrAppend, kStrAssignChars, kStrAppendChars, kStrAppendNumber, kStrAppendHex, kStrFormat, kStrPadEnd,
@@ -57,7 +57,7 @@ const char* const kOpNames[kOpCount] = {
   "list_append", "list_prepend", "list_insert_before", "list_insert_after", "list_unlink", "list_pop", "list_pop_first",
   "bit_resize", "bit_append", "bit_set_bit", "bit_fill_bits", "bit_clear_bits", "bit_fill_all", "bit_clear_all", "bit_and", "bit_or", "bit_and_not",
   "bit_copy_from", "bit_truncate", "bit_clear", "bit_swap", "bit_release", "bit_equals",
-  "pool_alloc", "pool_release",
+  "pool_alloc", "pool_release", "chunk_alloc", "chunk_release",
   "raw_oneshot", "raw_oneshot_zeroed", "raw_reusable", "raw_reusable_zeroed", "raw_free_reusable", "raw_dup", "raw_sformat",
   "arena_reset", "arena_stats",
   "str_assign", "str_append", "str_assign_chars", "str_append_chars", "str_append_number", "str_append_hex", "str_format", "str_pad_end",
@@ -101,6 +101,8 @@ struct LNode : public ArenaListNode<LNode> {
 };
 
 struct PoolItem { uint64_t a, b, c, d; };
+struct PoolHeader { uint64_t link; };   // header of a chunk whose payload follows it: ArenaPool<PoolHeader, kChunkSize>
+constexpr size_t kChunkSize = 72;
 
 // ---------------------------------------------------------------------------------------------------------------
 // World
@@ -138,6 +140,9 @@ struct World {
   ArenaPool<PoolItem> pool;
   std::vector<PoolItem*> pool_live;
   std::set<PoolItem*> pool_released;
+  ArenaPool<PoolHeader, kChunkSize> chunk_pool;   // chunks larger than the header type (explicit Size argument)
+  std::vector<uint8_t*> chunk_live;
+  std::set<uint8_t*> chunk_released;
 
   std::vector<RawBlock> raws;
   uint64_t stamp_counter = 1;
@@ -342,6 +347,7 @@ void arena_was_reset(World& w) {
   w.list.reset(); w.list_model.clear();
   for (int i = 0; i < 2; i++) { w.bits[i].reset(); w.bits_model[i].clear(); }
   w.pool.reset(); w.pool_live.clear(); w.pool_released.clear();
+  w.chunk_pool.reset(); w.chunk_live.clear(); w.chunk_released.clear();
   w.raws.clear();
   w.astr.reset(); w.astr_model.clear();
 }
@@ -503,6 +509,31 @@ void exec_op(World& w, const Op& op) {
       if (w.pool_released.erase(p)) sim::count("c18.probe.pool_recycled");
       p->a = uint64_t(uintptr_t(p)); p->b = 0; p->c = 0; p->d = ~uint64_t(uintptr_t(p));
       w.pool_live.push_back(p);
+      break;
+    }
+    case kChunkAlloc: {
+      // every byte of a chunk belongs to its owner: it is tracked like a raw arena block (alignment, inside the arena's
+      // memory, disjoint from everything else that is live, contents intact until released)
+      uint8_t* p = reinterpret_cast<uint8_t*>(w.chunk_pool.alloc(arena));
+      if (!p) break;
+      for (uint8_t* q : w.chunk_live) SIM_CHECK(q != p, "c18:pool-double-handout", "chunk pool handed out a chunk that is still live");
+      bool recycled = w.chunk_released.erase(p) != 0;
+      if (recycled) sim::count("c18.probe.chunk_recycled");
+      check_new_raw(w, p, kChunkSize, "ArenaPool<T, 72>::alloc");
+      RawBlock b{p, kChunkSize, sim::mix64(uint64_t(uintptr_t(p)) ^ w.raws.size()), false, kChunkSize};
+      stamp_raw(b);
+      w.raws.push_back(b);
+      w.chunk_live.push_back(p);
+      break;
+    }
+    case kChunkRelease: {
+      if (w.chunk_live.empty()) break;
+      size_t i = size_t(op.a[0]) % w.chunk_live.size();
+      uint8_t* p = w.chunk_live[i];
+      for (size_t k = 0; k < w.raws.size(); k++) if (w.raws[k].p == p) { w.raws.erase(w.raws.begin() + long(k)); break; }
+      w.chunk_pool.release(reinterpret_cast<PoolHeader*>(p)); w.chunk_released.insert(p);
+      w.chunk_live.erase(w.chunk_live.begin() + long(i));
+      SIM_CHECK(w.chunk_pool.pooled_item_count() == w.chunk_released.size(), "c18:pool-count", "pooled_item_count() of the chunk pool is %zu, expected %zu", w.chunk_pool.pooled_item_count(), w.chunk_released.size());
       break;
     }
     case kPoolRelease: {
@@ -796,7 +827,7 @@ Plan generate(uint64_t seed, bool thorough) {
         op.kind = r.pick(ks); op.a[0] = int64_t(r.below(2)); op.a[1] = int64_t(r.chance(1, 4) ? r.below(2000) : r.below(200)); op.a[2] = int64_t(r.below(1000)); op.a[3] = int64_t(r.below(4));
         break;
       }
-      case 5: { op.kind = r.chance(3, 5) ? kPoolAlloc : kPoolRelease; op.a[0] = int64_t(r.below(1000)); break; }
+      case 5: { if (r.chance(1, 2)) op.kind = r.chance(3, 5) ? kPoolAlloc : kPoolRelease; else op.kind = r.chance(3, 5) ? kChunkAlloc : kChunkRelease; op.a[0] = int64_t(r.below(1000)); break; }
       case 6: {
         static const uint16_t ks[] = {kRawOneshot, kRawOneshot, kRawOneshotZeroed, kRawReusable, kRawReusable, kRawReusableZeroed, kRawFreeReusable, kRawFreeReusable, kRawDup, kRawSformat, kArenaReset, kArenaStats};
         op.kind = r.pick(ks);
